@@ -35,6 +35,45 @@ use std::{
 };
 use tokio::{sync::Semaphore, time::interval};
 
+/// Magic bytes at the start of every cache file
+const FILE_MAGIC: &[u8; 8] = b"CSCCACH1";
+/// Size of the file header: magic + expiry (milliseconds since the Unix epoch, LE)
+const FILE_HEADER_LEN: usize = 16;
+/// Expiry field of an entry without expiration
+const NO_EXPIRY: u64 = u64::MAX;
+
+/// Build the file header that records when an entry expires.
+///
+/// The index (and with it every `expires_at`) lives in memory only. The header
+/// lets an instance that finds the file without an index entry honor the TTL.
+fn encode_file_header(expires_at: Option<SystemTime>) -> [u8; FILE_HEADER_LEN] {
+    let expiry_ms = expires_at.map_or(NO_EXPIRY, |t| {
+        t.duration_since(SystemTime::UNIX_EPOCH)
+            .map_or(0, |d| u64::try_from(d.as_millis()).unwrap_or(NO_EXPIRY - 1))
+    });
+
+    let mut header = [0u8; FILE_HEADER_LEN];
+    header[..8].copy_from_slice(FILE_MAGIC);
+    header[8..].copy_from_slice(&expiry_ms.to_le_bytes());
+    header
+}
+
+/// Split a cache file into expiry and payload; `None` if the header is missing.
+fn decode_file(raw: &Bytes) -> Option<(Option<SystemTime>, Bytes)> {
+    if raw.len() < FILE_HEADER_LEN || &raw[..8] != FILE_MAGIC {
+        return None;
+    }
+
+    let mut expiry = [0u8; 8];
+    expiry.copy_from_slice(&raw[8..FILE_HEADER_LEN]);
+    let expires_at = match u64::from_le_bytes(expiry) {
+        NO_EXPIRY => None,
+        ms => Some(SystemTime::UNIX_EPOCH + Duration::from_millis(ms)),
+    };
+
+    Some((expires_at, raw.slice(FILE_HEADER_LEN..)))
+}
+
 /// Disk cache entry metadata
 #[derive(Debug, Clone)]
 struct DiskCacheEntry {
@@ -317,7 +356,12 @@ impl<K: CacheKey + 'static> DiskCache<K> {
     }
 
     /// Write data to disk file atomically
-    async fn write_file(&self, path: &Path, data: &Bytes) -> CacheResult<()> {
+    async fn write_file(
+        &self,
+        path: &Path,
+        data: &Bytes,
+        expires_at: Option<SystemTime>,
+    ) -> CacheResult<()> {
         let _permit = self
             .io_semaphore
             .acquire()
@@ -342,6 +386,8 @@ impl<K: CacheKey + 'static> DiskCache<K> {
                 .map_err(CacheError::Io)?;
 
             vp_sched!("disk.write.data");
+            file.write_all(&encode_file_header(expires_at))
+                .map_err(CacheError::Io)?;
             file.write_all(data).map_err(CacheError::Io)?;
             file.flush().map_err(CacheError::Io)?;
 
@@ -365,8 +411,8 @@ impl<K: CacheKey + 'static> DiskCache<K> {
         Ok(())
     }
 
-    /// Read data from disk file
-    async fn read_file(&self, path: &Path) -> CacheResult<Bytes> {
+    /// Read expiry and data from disk file
+    async fn read_file(&self, path: &Path) -> CacheResult<(Option<SystemTime>, Bytes)> {
         let _permit = self
             .io_semaphore
             .acquire()
@@ -378,15 +424,19 @@ impl<K: CacheKey + 'static> DiskCache<K> {
         let file_size = metadata.len() as usize;
 
         // For large files, consider using memory-mapped I/O
-        if file_size >= 16 * 1024 * 1024 {
+        let raw = if file_size >= 16 * 1024 * 1024 {
             // Use memory-mapped file for large files
-            self.read_file_mmap(path, file_size)
+            self.read_file_mmap(path, file_size)?
         } else {
             // Read directly for smaller files
             let mut buffer = Vec::with_capacity(file_size);
             file.read_to_end(&mut buffer).map_err(CacheError::Io)?;
-            Ok(Bytes::from(buffer))
-        }
+            Bytes::from(buffer)
+        };
+
+        decode_file(&raw).ok_or_else(|| {
+            CacheError::Deserialization(format!("{}: not a cache file", path.display()))
+        })
     }
 
     /// Read large file using memory mapping
@@ -515,7 +565,7 @@ impl<K: CacheKey + 'static> AsyncCache<K> for DiskCache<K> {
             // Read file content
             vp_sched!("disk.get.read");
             match self.read_file(&entry.file_path).await {
-                Ok(data) => {
+                Ok((_, data)) => {
                     // Update access time
                     vp_sched!("disk.get.touch");
                     if let Ok(mut index) = self.index.write()
@@ -549,7 +599,11 @@ impl<K: CacheKey + 'static> AsyncCache<K> for DiskCache<K> {
                 // Found file on disk - try to read it and add to index
                 vp_sched!("disk.get.fallback.read");
                 match self.read_file(&file_path).await {
-                    Ok(data) => {
+                    Ok((expires_at, _)) if expires_at.is_some_and(|t| SystemTime::now() >= t) => {
+                        // Written by a previous instance and expired since
+                        let _ = fs::remove_file(&file_path);
+                    }
+                    Ok((expires_at, data)) => {
                         let size_bytes = data.len();
                         let metadata = fs::metadata(&file_path).map_err(CacheError::Io)?;
                         let created = metadata.created().unwrap_or_else(|_| SystemTime::now());
@@ -559,7 +613,7 @@ impl<K: CacheKey + 'static> AsyncCache<K> for DiskCache<K> {
                             file_path: file_path.clone(),
                             size_bytes,
                             created_at: created,
-                            expires_at: None, // Can't determine TTL from existing file
+                            expires_at, // Recorded in the file header by put
                             last_accessed: SystemTime::now(),
                             access_count: 1,
                         };
@@ -574,6 +628,11 @@ impl<K: CacheKey + 'static> AsyncCache<K> for DiskCache<K> {
 
                         self.metrics.record_get(true, start_time.elapsed());
                         return Ok(Some(data));
+                    }
+                    Err(CacheError::Deserialization(_)) => {
+                        // No header, so no way to tell whether the content is still
+                        // valid (file from an older version): drop it and miss
+                        let _ = fs::remove_file(&file_path);
                     }
                     Err(_) => {
                         // File exists but couldn't read - ignore and fall through to miss
@@ -597,9 +656,11 @@ impl<K: CacheKey + 'static> AsyncCache<K> for DiskCache<K> {
         let size_bytes = value.len();
 
         let file_path = self.get_file_path(&key);
+        let entry = DiskCacheEntry::new(file_path.clone(), size_bytes, Some(ttl));
 
-        // Write data to disk
-        self.write_file(&file_path, &value).await?;
+        // Write data to disk, together with the expiry time
+        self.write_file(&file_path, &value, entry.expires_at)
+            .await?;
 
         // Update index
         vp_sched!("disk.put.index");
@@ -608,8 +669,6 @@ impl<K: CacheKey + 'static> AsyncCache<K> for DiskCache<K> {
                 .index
                 .write()
                 .map_err(|_| CacheError::LockTimeout("index write lock".to_string()))?;
-
-            let entry = DiskCacheEntry::new(file_path.clone(), size_bytes, Some(ttl));
 
             if let Some(old_entry) = index.insert(key, entry) {
                 // Updating existing entry - adjust disk usage
@@ -806,6 +865,65 @@ mod tests {
             assert_eq!(retrieved, Some(value));
             assert_eq!(cache.size().await.expect("Operation should succeed"), 1);
         }
+    }
+
+    #[tokio::test]
+    async fn test_disk_cache_ttl_survives_restart() {
+        let temp_dir = TempDir::new().expect("Operation should succeed");
+        let config = DiskCacheConfig::new(temp_dir.path()).with_max_files(100);
+
+        let short = RibbitKey::new("short", "us");
+        let long = RibbitKey::new("long", "us");
+
+        {
+            let cache = DiskCache::new(config.clone()).expect("Operation should succeed");
+            cache
+                .put_with_ttl(short.clone(), Bytes::from("old"), Duration::from_millis(50))
+                .await
+                .expect("Operation should succeed");
+            cache
+                .put_with_ttl(
+                    long.clone(),
+                    Bytes::from("fresh"),
+                    Duration::from_secs(3600),
+                )
+                .await
+                .expect("Operation should succeed");
+        }
+
+        tokio::time::sleep(Duration::from_millis(100)).await;
+
+        // A new instance must not serve the entry whose TTL ended meanwhile
+        let cache = DiskCache::new(config).expect("Operation should succeed");
+        assert_eq!(
+            cache.get(&short).await.expect("Operation should succeed"),
+            None
+        );
+        assert_eq!(
+            cache.get(&long).await.expect("Operation should succeed"),
+            Some(Bytes::from("fresh"))
+        );
+        assert_eq!(cache.size().await.expect("Operation should succeed"), 1);
+    }
+
+    #[tokio::test]
+    async fn test_disk_cache_ignores_file_without_header() {
+        let temp_dir = TempDir::new().expect("Operation should succeed");
+        let config = DiskCacheConfig::new(temp_dir.path())
+            .with_subdirectories(false, 0)
+            .with_max_files(100);
+        let cache = DiskCache::new(config).expect("Operation should succeed");
+        let key = RibbitKey::new("legacy", "us");
+
+        // File of unknown age and TTL, e.g. written by an older version
+        fs::write(temp_dir.path().join(key.as_cache_key()), b"stale")
+            .expect("Operation should succeed");
+
+        assert_eq!(
+            cache.get(&key).await.expect("Operation should succeed"),
+            None
+        );
+        assert_eq!(cache.size().await.expect("Operation should succeed"), 0);
     }
 
     #[tokio::test]
